@@ -93,3 +93,22 @@ def scenarios_failures():
                 out.append((f'{T.__name__}:t({m1},{m2})/{top}+u(d2)', [t, u]))
                 out.append((f'{T.__name__}:u(d2)+t({m1},{m2})/{top}', [u, t]))
     return out
+
+
+# ---- environment probes (C16)
+MARK = 0          # mutated by the parent before run_tasks; a freshly spawned interpreter must not see the mutation
+
+
+@labtech.task(cache=None)
+class EnvProbe:
+    name: str
+
+    def filter_context(self, context):
+        return {k: v for k, v in context.items() if k in ('shared', self.name)}
+
+    def run(self):
+        import multiprocessing
+        import threading
+        return dict(pid=os.getpid(), ppid=os.getppid(), mark=MARK, context=dict(self.context),
+                    main_thread=threading.current_thread() is threading.main_thread(),
+                    proc_name=multiprocessing.current_process().name)
